@@ -24,6 +24,10 @@ func init() {
 // USE-CANDIDATE and nomination requests from any address. Every change of the selected pair must be
 // justified by the checker's own ledger of wire traffic.
 func runC03(c *core.Ctx) {
+	if c.T.Bias(1, 12, "one-sided-restart") {
+		runC03OneSidedRestart(c)
+		return
+	}
 	if c.T.Bias(1, 8, "renominate-race") {
 		runC03RenominateRace(c)
 		return
